@@ -1,16 +1,40 @@
-//! Suite C06 (stub — replaced when the property's harness is built).
+//! Suite C06: uplink frame counters never repeat within a session (MAC level; radio faults are a device-level concern, see c06dev).
 #![allow(dead_code, unused_imports)]
+use crate::mac::*;
+use crate::macgen::*;
+use crate::macsuites::*;
 use crate::util::*;
 
-pub fn eval(_op: &str) -> String {
-    "bad-op".into()
+pub fn eval(op: &str) -> String {
+    let outs = run_history(op);
+    format!("{} ## oracle={}", outs.join(" ; "), oracle_c06(op, &outs))
 }
 
 pub fn expand(_op: &str) -> Vec<String> {
     vec![]
 }
 
-pub fn run(_tier: &str, _seed: u64, dir: &str) {
-    let sink = Sink::new(dir);
-    sink.finish(dir, "stub", false, serde_json::json!({}));
+pub fn run(tier: &str, seed: u64, dir: &str) {
+    let mut rng = Rng::new(seed);
+    let mut sink = Sink::new(dir);
+    let thorough = tier == "thorough";
+    let per_region = if thorough { 2500 } else { 140 };
+    for region in REGIONS {
+        for i in 0..per_region {
+            let mut o = Opts::default();
+            o.steps = 5 + rng.below(14) as usize;
+            o.otaa_pct = 15;
+            o.snaps = i % 4 == 0;
+            o.counters = match i % 5 {
+                0 => Some((0xffff, Some(3))),
+                1 => Some((0xffff_fffe, Some(3))),
+                2 => Some((0xffff_fffb, None)),
+                3 => Some((0xfffe, None)),
+                _ => None,
+            };
+            let op = gen_history("C06", &mut rng, region, &o);
+            sink.case(&op, &eval(&op), "counter-history", true);
+        }
+    }
+    sink.finish(dir, "MAC histories (send / RX1 hit / RX2 hit / timeout / rejected and oversized frames / Class C downlinks / re-joins) from starting counters 0, 0xFFFE, 0xFFFF, 2^32-5, 2^32-2; every transmitted frame is decoded by the network side with the full 32-bit counter (MIC and decryption must succeed for it). Non-trivial = every case.", false, serde_json::json!({}));
 }
